@@ -752,6 +752,49 @@ def check_reference(ctx, world):
     return True
 
 
+def seed_boundary_oracle(ctx):
+    """The property with boundary seeds, in-process and without the model: with a fixed
+    --seed (0 and 1 included - 0 is falsy in Python) two uninterrupted runs, and a run
+    resumed from a manifest listing the first utterance, store byte-identical files."""
+    C.ensure_impl_path()
+    import numpy as np
+    from pydrobert.speech import command_line
+
+    d = os.path.join(C.BUILD, "C10", "seedbound")
+    shutil.rmtree(d, ignore_errors=True)
+    os.makedirs(d)
+    rs = np.random.RandomState(ctx.seed + 77)
+    ids = ["u%d" % i for i in range(3)]
+    with open(os.path.join(d, "map"), "w") as f:
+        for u in ids:
+            pth = os.path.join(d, u + ".npy")
+            np.save(pth, rs.randn(300))
+            f.write("%s %s\n" % (u, pth))
+
+    def run_tool(out, seed, manifest=None):
+        args = [os.path.join(d, "map"), out, "--seed=%d" % seed, "--preprocess=[\"dither\"]"]
+        if manifest:
+            args.append("--manifest=" + manifest)
+        rc = command_line.signals_to_torch_feat_dir(args)
+        return rc, {u: open(os.path.join(out, u + ".pt"), "rb").read() for u in ids if os.path.exists(os.path.join(out, u + ".pt"))}
+
+    for seed in (0, 1, 12345):
+        rc1, a = run_tool(os.path.join(d, "a%d" % seed), seed)
+        rc2, b = run_tool(os.path.join(d, "b%d" % seed), seed)
+        man = os.path.join(d, "m%d" % seed)
+        outc = os.path.join(d, "c%d" % seed)
+        os.makedirs(outc)
+        shutil.copy(os.path.join(d, "a%d" % seed, ids[0] + ".pt"), outc)
+        with open(man, "w") as f:
+            f.write(ids[0] + "\n")
+        rc3, c = run_tool(outc, seed, man)
+        ctx.count("seed-boundary:%d" % seed)
+        ctx.case(dict(kind="seed-boundary", seed=seed, utterances=ids), nontrivial=True)
+        if rc1 or rc2 or rc3 or a != b or a != c:
+            ctx.fail("with a fixed --seed the stored files differ between runs (uninterrupted twice / resumed from a manifest)",
+                     dict(seed=seed, preprocess="dither", utterances=ids, same_twice=a == b, same_resumed=a == c, exit=[rc1, rc2, rc3]), kind="impl")
+
+
 def run(ctx):
     C.ensure_impl_path()
     from concurrent.futures import ThreadPoolExecutor
@@ -940,6 +983,7 @@ def run(ctx):
     ]
     if not ctx.failures:
         shutil.rmtree(SCRATCH, ignore_errors=True)
+    seed_boundary_oracle(ctx)
     return C.finish(ctx, "proof")
 
 
